@@ -95,7 +95,8 @@ def run(ck):
         key = (kind, cls)
         if fid is None and key in reported:
             continue
-        reported.add(key)
+        if fid is None:      # a listed finding never hides a later unlisted violation of the same class
+            reported.add(key)
         ck.violation({"kind": kind, "finding": fid, "rule": rule, "verdict": verdict, "position": pos, "position_verdict": where,
                       "diagnostic": msg[:500], "wgsl": src, "how": how}, found_input=True)
     ck.extra["results_per_rule"] = tally
